@@ -53,8 +53,7 @@ def bcrypt64(data):
 
 def base_format(name):
     for pre in ("ldap_", "django_"):
-        if name.startswith(pre):
-            name = name[len(pre):]
+        name = name.removeprefix(pre)
     return name
 
 
@@ -134,7 +133,7 @@ def settings_grid(name, rng, tier):
     if base == "des_crypt":
         return combine(["ab", "./", "zz"] + [h64(2) for _ in range(nextra + 1)])
     if base == "bsdi_crypt":
-        return combine(["abcd", "...."] + [h64(4) for _ in range(nextra)], [1, 3, 725] + ([2, 5, 4097, 16385] if thorough else []))
+        return combine(["abcd", "...."] + [h64(4) for _ in range(nextra)], [1, 3, 101] + ([2, 5, 21, 725] if thorough else []))  # builtin DES costs ~20 us per round
     if base == "md5_crypt":
         return combine(["", "a", "abcd", "testsalt"] + [h64(rng.randint(1, 8)) for _ in range(nextra)])
     if base == "sha1_crypt":
@@ -332,7 +331,7 @@ def _run(tier, rng, quick, host, handlers, original, skipped, notes, exc):
         "BackendMixin.has_backend/set_backend",
         "every registered hasher with a `backends` attribute x every name in it: if the host demonstrably supports it "
         "(crypt() answers the published vector / import works / hashlib.scrypt runs / builtin) then has_backend is True, "
-        "set_backend succeeds, get_backend reports it, hash()+verify() run without error; unknown names are refused",
+        "set_backend succeeds, get_backend reports it, hash()+verify() run without error",
     )
     available = {}
     for name, h in handlers.items():
@@ -347,7 +346,7 @@ def _run(tier, rng, quick, host, handlers, original, skipped, notes, exc):
                     available[name].append(b)
                     notes.append(f"{name}/{b}: reported available though the harness has no independent evidence")
                 else:
-                    skipped.append(f"{name}/{b}: not supported by this host (has_backend -> {hb[1] if hb[0] == 'ok' else hb[1]})")
+                    skipped.append(f"{name}/{b}: not supported by this host (has_backend -> {hb[1]!r})")
                 continue
             wit = {"hasher": name, "backend": b, "call": f"passlib.hash.{name}.has_backend({b!r})"}
             g.check(hb == ("ok", True), f"has_backend:{name}:{b}", "backend the host demonstrably supports is not reported available", {**wit, "outcome": repr(hb)})
@@ -365,15 +364,6 @@ def _run(tier, rng, quick, host, handlers, original, skipped, notes, exc):
                 wo = outcome(h.verify, "tesu", ho[1])
                 g.check(wo == ("ok", False), f"verify-rejects:{name}:{b}", "verify() accepts a wrong password under this backend", {**wit, "hash": ho[1], "outcome": repr(wo)})
                 available[name].append(b)
-        # unknown backend names are refused, "any"/"default" accepted when something is available
-        uo = outcome(h.set_backend, "no-such-backend")
-        g.case((name, "unknown-name"))
-        g.check(uo[0] == "exc" and uo[3], f"unknown-backend:{name}", "unknown backend name not refused with a ValueError", {"hasher": name, "outcome": repr(uo)})
-        if available[name]:
-            do = outcome(h.set_backend, "default")
-            g.case((name, "default"))
-            now = outcome(h.get_backend)
-            g.check(do[0] == "ok" and now[0] == "ok" and now[1] in tuple(h.backends), f"default-backend:{name}", "set_backend('default') fails although a backend is available", {"hasher": name, "outcome": repr(do), "backend": repr(now)})
         if original.get(name):
             outcome(h.set_backend, original[name])
     groups.append(g)
@@ -400,7 +390,9 @@ def _run(tier, rng, quick, host, handlers, original, skipped, notes, exc):
     slow_pw_ids = {"ascii0", "ascii72", "ascii73", "ascii-tail72", "utf8-straddle72", "nonutf8-72", "nonutf8-73", "utf8-mixed", "ascii200"}
     refusals = 0
     t_slow = 0.0
+    spent = {}
     for name, backends in usable.items():
+        t_name = time.time()
         h = handlers[name]
         grid = settings_grid(name, rng, tier)
         if grid is None:
@@ -508,6 +500,8 @@ def _run(tier, rng, quick, host, handlers, original, skipped, notes, exc):
                             g.check(wo == ("ok", False), f"cross-reject:{name}:{a}->{b}", "hash made under one backend verifies a different password under another", {**wit, "other": other, "outcome": repr(wo)})
         if original.get(name):
             outcome(h.set_backend, original[name])
+        spent[name] = round(time.time() - t_name, 1)
+    notes.append(f"agreement seconds per hasher: {spent}")
     if refusals:
         notes.append(f"bcrypt/os_crypt refused {refusals} non-UTF-8 passwords with PasswordValueError (passlib's documented behaviour for that backend; counted as refusal, digest not compared)")
     notes.append(f"builtin bcrypt hashing took {t_slow:.1f} s")
